@@ -11,6 +11,7 @@ import (
 	"sort"
 	"strconv"
 	"strings"
+	"sync"
 	"time"
 )
 
@@ -49,6 +50,13 @@ type KnownFinding struct {
 type KnownFile struct {
 	Findings []KnownFinding `json:"findings"`
 	Fixed    []string       `json:"fixed"`
+}
+
+type pendingFunc struct {
+	r          *FuncResult
+	groups     map[string][]*Obligation
+	order      []string
+	regionObls map[string][]*Obligation
 }
 
 type oblReport struct {
@@ -161,7 +169,7 @@ func cmdCheck(args []string) {
 	}
 	work, _ := os.MkdirTemp("", "gvc")
 	defer os.RemoveAll(work)
-	cfg := &SolverCfg{WorkDir: work, Quick: 3 * time.Second, Full: 10 * time.Second, Parallel: 16}
+	cfg := &SolverCfg{WorkDir: work, Quick: 3 * time.Second, Full: 20 * time.Second, Parallel: 16}
 	if *tier == "thorough" {
 		cfg.Quick = 10 * time.Second
 		cfg.Full = 60 * time.Second
@@ -223,6 +231,8 @@ func cmdCheck(args []string) {
 		if len(work) == 0 {
 			failures = append(failures, failure{name: id + " / no functions under contract in variant " + v.Name, reason: "vacuous check: no function matched " + strings.Join(pc.Functions, ",")})
 		}
+		var pend []*pendingFunc
+		var allObls []*Obligation
 		for len(work) > 0 {
 			key := work[0]
 			work = work[1:]
@@ -281,9 +291,30 @@ func cmdCheck(args []string) {
 					o.Assump = append(append([]*Term{}, o.Assump...), Not(reg))
 				}
 			}
-			Discharge(cfg, r.Obls)
+			pend = append(pend, &pendingFunc{r: r, groups: groups, order: order, regionObls: regionObls})
+			allObls = append(allObls, r.Obls...)
+			for _, ros := range regionObls {
+				allObls = append(allObls, ros...)
+			}
+		}
+		// discharge everything of this variant in one pool; vacuity guards run alongside
+		vacRes := make([]solverAnswer, len(pend))
+		var vwg sync.WaitGroup
+		for i, pf := range pend {
+			if pf.r.Vacuity == nil {
+				continue
+			}
+			vwg.Add(1)
+			go func(i int, pf *pendingFunc) {
+				defer vwg.Done()
+				vacRes[i] = CheckSat(cfg, pf.r.Vacuity.Assump)
+			}(i, pf)
+		}
+		Discharge(cfg, allObls)
+		vwg.Wait()
+		for pi, pf := range pend {
+			r, groups, order, regionObls := pf.r, pf.groups, pf.order, pf.regionObls
 			for k, ros := range regionObls {
-				Discharge(cfg, ros)
 				still := false
 				for _, ro := range ros {
 					if ro.Status != "discharged" {
@@ -297,7 +328,7 @@ func cmdCheck(args []string) {
 			}
 			vac := "not-checked"
 			if r.Vacuity != nil {
-				a := CheckSat(cfg, r.Vacuity.Assump)
+				a := vacRes[pi]
 				vac = a.status
 				if a.status == "unsat" {
 					failures = append(failures, failure{name: r.Name + " / requires-satisfiable", fr: r, reason: "the precondition of " + r.Name + " is contradictory: every obligation would hold vacuously", P: P})
